@@ -65,8 +65,8 @@ def run(ctx):
         ctx.cov["exhaustive"] = True
         _traces(ctx, "small", "trace-small", runs=12 if thorough else 4)
         _traces(ctx, "boundary", "trace-boundary", sizes=[999, 1000, 1001] + ([2001, 4095, 4096, 4097] if thorough else []))
-        if thorough:
-            _traces(ctx, "large", "trace-large", sizes=[65535, 65537, 150000])
+        # the first large size is built by the big writer: values held by exactly 4096 / 8192 rows, trailing rows without columns
+        _traces(ctx, "large", "trace-large", sizes=[12288, 65535, 65537, 150000] if thorough else [8192])
         nul_probe(ctx)
     elif pid == "C02":
         ctx.cov["rule"] = ("TLC proves nested group-by refinement = declarative GROUP BY (sorted tuples with count>0) for every dataset x group-by list; "
